@@ -275,4 +275,780 @@ theorem trimModule_ok_or_err (toks : List Token) (module acc : FunTable) (σ : S
       · exact Or.inl h
       · exact Or.inr ⟨t', by simp [ht'], h⟩
 
+/-! # Evaluation depends on the procedure table only through the names the code can call
+
+`St.withProcs σ P` is `σ` with the procedure table `P`. First: no native procedure and no helper of the
+evaluator reads or writes `procs` (`*_obl`: running in `σ.withProcs P` is running in `σ` and putting `P`
+into the resulting states). Then, by one mutual induction on fuel over the eight evaluators (`Obl`,
+`obl_all`): two states that differ in `procs` only, whose tables agree on `names` and are closed under
+`names` (the bodies of the procedures reachable from `names` call only `names`), give related results
+for every piece of code that `CallsWithin names`. -/
+
+/-- the state with another procedure table -/
+def St.withProcs (σ : St) (P : FunTable) : St := { σ with procs := P }
+
+/-- replace the procedure table in every state a result carries -/
+def Res.mapP {α} (g : α → α) (P : FunTable) : Res α → Res α
+  | .ok a => .ok (g a)
+  | .err e s => .err e (s.withProcs P)
+  | .terminate w s => .terminate w (s.withProcs P)
+  | .panic p o => .panic p o
+  | .fuel => .fuel
+
+abbrev Res.mapPV {α} (P : FunTable) (r : Res (α × St)) : Res (α × St) := r.mapP (fun x => (x.1, x.2.withProcs P)) P
+abbrev Res.mapPE {α} (P : FunTable) (r : Res α) : Res α := r.mapP id P
+
+section
+variable (σ : St) (P : FunTable)
+@[simp] theorem withProcs_heap : (σ.withProcs P).heap = σ.heap := rfl
+@[simp] theorem withProcs_world : (σ.withProcs P).world = σ.world := rfl
+@[simp] theorem withProcs_out : (σ.withProcs P).out = σ.out := rfl
+@[simp] theorem withProcs_scopes : (σ.withProcs P).scopes = σ.scopes := rfl
+@[simp] theorem getList_withProcs (a : Nat) : getList (σ.withProcs P) a = getList σ a := rfl
+end
+
+theorem bind_obl {α β} {g : β → β} {P : FunTable} {x₁ x₂ : Res α} {k₁ k₂ : α → Res β}
+    (hx : x₂ = x₁.mapPE P) (hk : ∀ a, k₂ a = (k₁ a).mapP g P) : x₂.bind k₂ = (x₁.bind k₁).mapP g P := by
+  subst hx
+  cases x₁ with
+  | ok a => exact hk a
+  | _ => rfl
+
+variable (σ : St) (P : FunTable)
+
+theorem castStr_obl (v : Value) (sp : Span) : castStr v sp (σ.withProcs P) = (castStr v sp σ).mapPE P := by
+  cases v <;> rfl
+theorem castNum_obl (v : Value) (sp : Span) : castNum v sp (σ.withProcs P) = (castNum v sp σ).mapPE P := by
+  cases v <;> rfl
+theorem castList_obl (v : Value) (sp : Span) : castList v sp (σ.withProcs P) = (castList v sp σ).mapPE P := by
+  cases v <;> try rfl
+  simp only [castList, getList_withProcs]
+  split <;> rfl
+theorem castMap_obl (v : Value) (sp : Span) : castMap v sp (σ.withProcs P) = (castMap v sp σ).mapPE P := by
+  cases v <;> try rfl
+  simp only [castMap, withProcs_heap]
+  split <;> rfl
+theorem castRobot_obl (v : Value) (sp : Span) : castRobot v sp (σ.withProcs P) = (castRobot v sp σ).mapPE P := by
+  cases v <;> try rfl
+  simp only [castRobot, withProcs_heap]
+  split <;> rfl
+theorem display_obl (v : Value) : display (σ.withProcs P) v = (display σ v).mapPE P := by
+  simp only [display, withProcs_heap]
+  split <;> rfl
+theorem displayAll_obl (vs : List Value) : displayAll (σ.withProcs P) vs = (displayAll σ vs).mapPE P := by
+  induction vs with
+  | nil => rfl
+  | cons v vs ih =>
+    simp only [displayAll]
+    apply bind_obl (display_obl σ P v); intro a
+    apply bind_obl ih; intro b
+    rfl
+
+macro "obl_step" : tactic =>
+  `(tactic| first
+    | rfl
+    | (apply bind_obl (castStr_obl _ _ _ _); intro _)
+    | (apply bind_obl (castNum_obl _ _ _ _); intro _)
+    | (apply bind_obl (castList_obl _ _ _ _); intro _)
+    | (apply bind_obl (castMap_obl _ _ _ _); intro _)
+    | (apply bind_obl (castRobot_obl _ _ _ _); intro _)
+    | (apply bind_obl (display_obl _ _ _); intro _)
+    | (apply bind_obl (displayAll_obl _ _ _); intro _)
+    | split)
+
+
+theorem moveRobot_obl (v : Value) (s1 : Span) :
+    moveRobot v s1 (σ.withProcs P) = (moveRobot v s1 σ).mapPV P := by
+  unfold moveRobot
+  repeat' obl_step
+
+macro "obl_native" : tactic =>
+  `(tactic| (split
+             all_goals (try simp only [withProcs_heap, withProcs_world, withProcs_out, getList_withProcs])
+             all_goals (repeat' obl_step)))
+
+theorem callCore_obl (env n args spans) :
+    callCore env n args spans (σ.withProcs P) = (callCore env n args spans σ).mapPV P := by
+  unfold callCore; obl_native
+theorem callMath_obl (env n args spans) :
+    callMath env n args spans (σ.withProcs P) = (callMath env n args spans σ).mapPV P := by
+  unfold callMath; obl_native
+theorem callString_obl (env n args spans) :
+    callString env n args spans (σ.withProcs P) = (callString env n args spans σ).mapPV P := by
+  unfold callString; obl_native
+theorem callMap_obl (env n args spans) :
+    callMap env n args spans (σ.withProcs P) = (callMap env n args spans σ).mapPV P := by
+  unfold callMap; obl_native
+theorem callIo_obl (env n args spans) :
+    callIo env n args spans (σ.withProcs P) = (callIo env n args spans σ).mapPV P := by
+  unfold callIo; obl_native
+theorem callStyle_obl (env n args spans) :
+    callStyle env n args spans (σ.withProcs P) = (callStyle env n args spans σ).mapPV P := by
+  unfold callStyle; obl_native
+theorem callTime_obl (env n args spans) :
+    callTime env n args spans (σ.withProcs P) = (callTime env n args spans σ).mapPV P := by
+  unfold callTime; obl_native
+set_option linter.unusedSimpArgs false in
+theorem callRobot_obl (env n args spans) :
+    callRobot env n args spans (σ.withProcs P) = (callRobot env n args spans σ).mapPV P := by
+  unfold callRobot
+  split
+  all_goals (try simp only [withProcs_heap, withProcs_world, withProcs_out, getList_withProcs])
+  all_goals first | exact moveRobot_obl _ _ _ _ | (repeat' obl_step)
+theorem callFs_obl (env n args spans) :
+    callFs env n args spans (σ.withProcs P) = (callFs env n args spans σ).mapPV P := by
+  unfold callFs; obl_native
+
+/-- no native procedure reads or writes the procedure table -/
+theorem callNative_obl (env n args spans) :
+    callNative env n args spans (σ.withProcs P) = (callNative env n args spans σ).mapPV P := by
+  unfold callNative
+  split
+  · exact callCore_obl σ P env n args spans
+  · exact callMath_obl σ P env n args spans
+  · exact callString_obl σ P env n args spans
+  · exact callMap_obl σ P env n args spans
+  · exact callIo_obl σ P env n args spans
+  · exact callStyle_obl σ P env n args spans
+  · exact callTime_obl σ P env n args spans
+  · exact callRobot_obl σ P env n args spans
+  · exact callFs_obl σ P env n args spans
+
+
+/-! ### the evaluator's helpers -/
+
+abbrev Res.mapPS (P : FunTable) (r : Res St) : Res St := r.mapP (·.withProcs P) P
+
+section
+variable (σ : St) (P : FunTable)
+@[simp] theorem withProcs_procs : (σ.withProcs P).procs = P := rfl
+@[simp] theorem withProcs_ret : (σ.withProcs P).ret = σ.ret := rfl
+@[simp] theorem withProcs_loops : (σ.withProcs P).loops = σ.loops := rfl
+@[simp] theorem withProcs_exports : (σ.withProcs P).exports = σ.exports := rfl
+@[simp] theorem withProcs_budget : (σ.withProcs P).budget = σ.budget := rfl
+@[simp] theorem withProcs_filePath : (σ.withProcs P).filePath = σ.filePath := rfl
+@[simp] theorem lookupVar_withProcs (x : Str) : lookupVar (σ.withProcs P) x = lookupVar σ x := rfl
+@[simp] theorem pending_withProcs : pending (σ.withProcs P) = pending σ := rfl
+
+theorem bind_oblS {β} {g : β → β} {P : FunTable} {x₁ x₂ : Res St} {k₁ k₂ : St → Res β}
+    (hx : x₂ = x₁.mapPS P) (hk : ∀ s, k₂ (s.withProcs P) = (k₁ s).mapP g P) :
+    x₂.bind k₂ = (x₁.bind k₁).mapP g P := by
+  subst hx
+  cases x₁ with
+  | ok a => exact hk a
+  | _ => rfl
+
+theorem binop_obl (op tok a b) : binop op tok a b (σ.withProcs P) = (binop op tok a b σ).mapPV P := by
+  unfold binop
+  split
+  all_goals (try simp only [getList_withProcs])
+  all_goals (repeat' obl_step)
+
+theorem unop_obl (op tok v) : unop op tok v (σ.withProcs P) = (unop op tok v σ).mapPV P := by
+  unfold unop
+  split <;> rfl
+
+theorem define_obl (x v) : define (σ.withProcs P) x v = (define σ x v).mapPS P := by
+  unfold define
+  simp only [withProcs_scopes]
+  split <;> rfl
+
+theorem removeVar_obl (x) : removeVar (σ.withProcs P) x = (removeVar σ x).mapPV P := by
+  unfold removeVar
+  simp only [withProcs_scopes]
+  split <;> rfl
+
+theorem createNested_obl : createNested (σ.withProcs P) = (createNested σ).mapPS P := by
+  unfold createNested
+  simp only [withProcs_scopes]
+  split <;> rfl
+
+theorem flattenNested_obl : flattenNested (σ.withProcs P) = (flattenNested σ).mapPS P := by
+  unfold flattenNested
+  simp only [withProcs_scopes]
+  split <;> rfl
+
+theorem popLoop_obl : popLoop (σ.withProcs P) = (popLoop σ).mapPS P := by
+  unfold popLoop
+  simp only [withProcs_loops]
+  split <;> rfl
+
+theorem afterBody_obl (b : Bool) : afterBody b (σ.withProcs P) = (afterBody b σ).mapPV P := by
+  cases σ
+  dsimp only [afterBody, St.withProcs]
+  repeat' (first | rfl | contradiction | split)
+
+theorem forAfter_obl : forAfter (σ.withProcs P) = (forAfter σ).mapPV P := by
+  cases σ
+  dsimp only [forAfter, St.withProcs]
+  repeat' (first | rfl | contradiction | split)
+
+theorem writeBack_withProcs (a i : Nat) (cur : Option Value) :
+    writeBack (σ.withProcs P) a i cur = (writeBack σ a i cur).withProcs P := by
+  unfold writeBack
+  simp only [getList_withProcs]
+  repeat' (first | rfl | contradiction | split)
+
+theorem assignVar_obl (name v) : assignVar name v (σ.withProcs P) = (assignVar name v σ).mapPV P := by
+  unfold assignVar
+  simp only [lookupVar_withProcs, getList_withProcs]
+  repeat' (first | rfl | contradiction | (apply bind_oblS (define_obl _ _ _ _); intro _; rfl) | split)
+
+theorem indexRead_obl (l k lt lb rb) :
+    indexRead l k lt lb rb (σ.withProcs P) = (indexRead l k lt lb rb σ).mapPV P := by
+  unfold indexRead
+  simp only [getList_withProcs]
+  repeat' (first | rfl | contradiction | split)
+
+theorem indexWrite_obl (l k v lt lb rb) :
+    indexWrite l k v lt lb rb (σ.withProcs P) = (indexWrite l k v lt lb rb σ).mapPV P := by
+  unfold indexWrite
+  simp only [getList_withProcs]
+  repeat' (first | rfl | contradiction | split)
+
+theorem tick_withProcs : tick (σ.withProcs P) = (tick σ).map (·.withProcs P) := by
+  cases σ
+  dsimp only [tick, St.withProcs]
+  split <;> rfl
+end
+
+
+/-! ## which procedures a piece of code can call -/
+
+mutual
+/-- every call in the expression names a procedure in `names` -/
+def Expr.CallsWithin (names : List Str) : Expr → Prop
+  | .lit _ _ => True
+  | .binary l _ r _ => Expr.CallsWithin names l ∧ Expr.CallsWithin names r
+  | .logical l _ r _ => Expr.CallsWithin names l ∧ Expr.CallsWithin names r
+  | .unary _ r _ => Expr.CallsWithin names r
+  | .grouping e _ _ => Expr.CallsWithin names e
+  | .call name args _ _ _ _ => name ∈ names ∧ Expr.CallsWithinL names args
+  | .access l _ k _ _ => Expr.CallsWithin names l ∧ Expr.CallsWithin names k
+  | .list items _ _ => Expr.CallsWithinL names items
+  | .var _ _ => True
+  | .assign _ _ v _ => Expr.CallsWithin names v
+  | .set l _ i _ _ v _ => Expr.CallsWithin names l ∧ Expr.CallsWithin names i ∧ Expr.CallsWithin names v
+def Expr.CallsWithinL (names : List Str) : List Expr → Prop
+  | [] => True
+  | e :: es => Expr.CallsWithin names e ∧ Expr.CallsWithinL names es
+end
+
+mutual
+/-- every call in the statement names a procedure in `names`; the statement imports nothing -/
+def Stmt.CallsWithin (names : List Str) : Stmt → Prop
+  | .expr e => e.CallsWithin names
+  | .ifs c t e _ _ => c.CallsWithin names ∧ Stmt.CallsWithin names t ∧ Stmt.CallsWithinO names e
+  | .repeatTimes c b _ _ _ => c.CallsWithin names ∧ Stmt.CallsWithin names b
+  | .repeatUntil c b _ _ => c.CallsWithin names ∧ Stmt.CallsWithin names b
+  | .forEach _ _ l b _ _ _ _ => l.CallsWithin names ∧ Stmt.CallsWithin names b
+  | .procDecl _ _ b _ _ _ => Stmt.CallsWithin names b
+  | .block _ ss _ => Stmt.CallsWithinL names ss
+  | .ret _ v => (match v with | some e => e.CallsWithin names | none => True)
+  | .cont _ => True
+  | .brk _ => True
+  | .import_ _ _ _ _ _ => False
+def Stmt.CallsWithinO (names : List Str) : Option Stmt → Prop
+  | none => True
+  | some s => Stmt.CallsWithin names s
+def Stmt.CallsWithinL (names : List Str) : List Stmt → Prop
+  | [] => True
+  | s :: ss => Stmt.CallsWithin names s ∧ Stmt.CallsWithinL names ss
+end
+
+/-! ## two states that differ in the procedure table only, and agree on `names` -/
+
+def AgreeOn (names : List Str) (P Q : FunTable) : Prop := ∀ n ∈ names, P.find? n = Q.find? n
+
+def Proc.CallsWithin (names : List Str) : Proc → Prop
+  | .user _ body => body.CallsWithin names
+  | .native _ => True
+
+/-- the user procedures reachable under `names` call only procedures in `names` -/
+def Closed (names : List Str) (P : FunTable) : Prop := ∀ n ∈ names, ∀ p, P.find? n = some p → p.CallsWithin names
+
+def RelSt (names : List Str) (s t : St) : Prop :=
+  ∃ Q, t = s.withProcs Q ∧ AgreeOn names s.procs Q ∧ Closed names s.procs
+
+/-- results that agree up to the procedure table of the states they carry -/
+def RelR {α} (R : α → α → Prop) : Res α → Res α → Prop
+  | .ok a, .ok b => R a b
+  | .err e s, .err e' t => e = e' ∧ ∃ Q, t = s.withProcs Q
+  | .terminate w s, .terminate w' t => w = w' ∧ ∃ Q, t = s.withProcs Q
+  | .panic p o, .panic p' o' => p = p' ∧ o = o'
+  | .fuel, .fuel => True
+  | _, _ => False
+
+def RV {α} (names : List Str) (x y : α × St) : Prop := x.1 = y.1 ∧ RelSt names x.2 y.2
+
+theorem RelR.bind {α β} {R : α → α → Prop} {S : β → β → Prop} {x₁ x₂ : Res α} {k₁ k₂ : α → Res β}
+    (hx : RelR R x₁ x₂) (hk : ∀ a b, R a b → RelR S (k₁ a) (k₂ b)) : RelR S (x₁.bind k₁) (x₂.bind k₂) := by
+  cases x₁ <;> cases x₂ <;> first | exact False.elim hx | exact hk _ _ hx | exact hx
+
+theorem agreeOn_insert {names : List Str} {P Q : FunTable} (h : AgreeOn names P Q) (n : Str) (p : Proc) :
+    AgreeOn names (P.insert n p) (Q.insert n p) := by
+  intro m hm; rw [FunTable.find?_insert, FunTable.find?_insert, h m hm]
+
+theorem closed_insert {names : List Str} {P : FunTable} (h : Closed names P) (n : Str) (p : Proc)
+    (hp : p.CallsWithin names) : Closed names (P.insert n p) := by
+  intro m hm q hq
+  rw [FunTable.find?_insert] at hq
+  split at hq
+  · injection hq with hq; subst hq; exact hp
+  · exact h m hm q hq
+
+theorem relV_of_obl {α} {names : List Str} {F : St → Res (α × St)}
+    (h : ∀ σ P, F (σ.withProcs P) = (F σ).mapPV P) {s t : St} (r : RelSt names s t) :
+    RelR (RV names) (F s) (F t) := by
+  obtain ⟨Q, rfl, ha, hc⟩ := r
+  have h2 : F s = (F s).mapPV s.procs := h s s.procs
+  rw [h s Q]
+  cases hF : F s with
+  | ok p =>
+    obtain ⟨a, s'⟩ := p
+    rw [hF] at h2
+    have hp : s.procs = s'.procs := by
+      injection h2 with h2
+      exact (congrArg (fun x => x.2.procs) h2).symm
+    exact ⟨rfl, Q, rfl, hp ▸ ha, hp ▸ hc⟩
+  | err e s' => exact ⟨rfl, Q, rfl⟩
+  | terminate w s' => exact ⟨rfl, Q, rfl⟩
+  | panic p o => exact ⟨rfl, rfl⟩
+  | fuel => trivial
+
+theorem relS_of_obl {names : List Str} {F : St → Res St}
+    (h : ∀ σ P, F (σ.withProcs P) = (F σ).mapPS P) {s t : St} (r : RelSt names s t) :
+    RelR (RelSt names) (F s) (F t) := by
+  obtain ⟨Q, rfl, ha, hc⟩ := r
+  have h2 : F s = (F s).mapPS s.procs := h s s.procs
+  rw [h s Q]
+  cases hF : F s with
+  | ok s' =>
+    rw [hF] at h2
+    have hp : s.procs = s'.procs := by
+      injection h2 with h2
+      exact (congrArg St.procs h2).symm
+    exact ⟨Q, rfl, hp ▸ ha, hp ▸ hc⟩
+  | err e s' => exact ⟨rfl, Q, rfl⟩
+  | terminate w s' => exact ⟨rfl, Q, rfl⟩
+  | panic p o => exact ⟨rfl, rfl⟩
+  | fuel => trivial
+
+/-- the induction hypothesis: all eight evaluators at fuel `f` -/
+structure Obl (cfg : Cfg) (names : List Str) (f : Nat) : Prop where
+  expr : ∀ e s t, Expr.CallsWithin names e → RelSt names s t →
+    RelR (RV names) (expr cfg f e s) (expr cfg f e t)
+  exprs : ∀ es s t, Expr.CallsWithinL names es → RelSt names s t →
+    RelR (RV names) (exprs cfg f es s) (exprs cfg f es t)
+  stmt : ∀ st s t, Stmt.CallsWithin names st → RelSt names s t →
+    RelR (RelSt names) (stmt cfg f st s) (stmt cfg f st t)
+  block : ∀ ss s t, Stmt.CallsWithinL names ss → RelSt names s t →
+    RelR (RelSt names) (block cfg f ss s) (block cfg f ss t)
+  repeatLoop : ∀ k body s t, Stmt.CallsWithin names body → RelSt names s t →
+    RelR (RelSt names) (repeatLoop cfg f k body s) (repeatLoop cfg f k body t)
+  untilLoop : ∀ c body s t, Expr.CallsWithin names c → Stmt.CallsWithin names body → RelSt names s t →
+    RelR (RelSt names) (untilLoop cfg f c body s) (untilLoop cfg f c body t)
+  forLoop : ∀ item a i len body s t, Stmt.CallsWithin names body → RelSt names s t →
+    RelR (RelSt names) (forLoop cfg f item a i len body s) (forLoop cfg f item a i len body t)
+  program : ∀ ss s t, Stmt.CallsWithinL names ss → RelSt names s t →
+    RelR (RelSt names) (program cfg f ss s) (program cfg f ss t)
+
+section step
+variable {cfg : Cfg} {names : List Str} {f : Nat} (ih : Obl cfg names f)
+include ih
+
+theorem exprs_step (es : List Expr) (s t : St) (hcw : Expr.CallsWithinL names es) (r : RelSt names s t) :
+    RelR (RV names) (exprs cfg (f+1) es s) (exprs cfg (f+1) es t) := by
+  cases es with
+  | nil => simp only [exprs]; exact ⟨rfl, r⟩
+  | cons e es =>
+    simp only [Expr.CallsWithinL] at hcw
+    simp only [exprs]
+    refine RelR.bind (ih.expr e s t hcw.1 r) ?_
+    rintro ⟨v, s1⟩ ⟨v', t1⟩ ⟨hv, r1⟩
+    dsimp only at hv r1 ⊢; subst hv
+    refine RelR.bind (ih.exprs es s1 t1 hcw.2 r1) ?_
+    rintro ⟨vs, s2⟩ ⟨vs', t2⟩ ⟨hv, r2⟩
+    dsimp only at hv r2 ⊢; subst hv
+    exact ⟨rfl, r2⟩
+
+theorem expr_step (e : Expr) (s t : St) (hcw : Expr.CallsWithin names e) (r : RelSt names s t) :
+    RelR (RV names) (expr cfg (f+1) e s) (expr cfg (f+1) e t) := by
+  cases e with
+  | grouping e lp rp => simp only [Expr.CallsWithin] at hcw; simp only [expr]; exact ih.expr e s t hcw r
+  | lit v tok => simp only [expr]; exact ⟨rfl, r⟩
+  | binary l op rr tok =>
+    simp only [Expr.CallsWithin] at hcw
+    simp only [expr]
+    refine RelR.bind (ih.expr l s t hcw.1 r) ?_
+    rintro ⟨a, s1⟩ ⟨a', t1⟩ ⟨hv, r1⟩
+    dsimp only at hv r1 ⊢; subst hv
+    refine RelR.bind (ih.expr rr s1 t1 hcw.2 r1) ?_
+    rintro ⟨b, s2⟩ ⟨b', t2⟩ ⟨hv, r2⟩
+    dsimp only at hv r2 ⊢; subst hv
+    exact relV_of_obl (fun σ P => binop_obl σ P op tok a b) r2
+  | unary op rr tok =>
+    simp only [Expr.CallsWithin] at hcw
+    simp only [expr]
+    refine RelR.bind (ih.expr rr s t hcw r) ?_
+    rintro ⟨a, s1⟩ ⟨a', t1⟩ ⟨hv, r1⟩
+    dsimp only at hv r1 ⊢; subst hv
+    exact relV_of_obl (fun σ P => unop_obl σ P op tok a) r1
+  | access l lt k lb rb =>
+    simp only [Expr.CallsWithin] at hcw
+    simp only [expr]
+    refine RelR.bind (ih.expr l s t hcw.1 r) ?_
+    rintro ⟨a, s1⟩ ⟨a', t1⟩ ⟨hv, r1⟩
+    dsimp only at hv r1 ⊢; subst hv
+    refine RelR.bind (ih.expr k s1 t1 hcw.2 r1) ?_
+    rintro ⟨b, s2⟩ ⟨b', t2⟩ ⟨hv, r2⟩
+    dsimp only at hv r2 ⊢; subst hv
+    exact relV_of_obl (fun σ P => indexRead_obl σ P a b lt lb rb) r2
+  | list items lb rb =>
+    simp only [Expr.CallsWithin] at hcw
+    simp only [expr]
+    refine RelR.bind (ih.exprs items s t hcw r) ?_
+    rintro ⟨vs, s1⟩ ⟨vs', t1⟩ ⟨hv, r1⟩
+    dsimp only at hv r1 ⊢; subst hv
+    exact relV_of_obl (F := fun σ => .ok (mkList σ vs)) (fun σ P => rfl) r1
+  | var name tok =>
+    simp only [expr]
+    refine relV_of_obl (F := fun σ => match lookupVar σ name with
+      | some v => .ok (v, σ)
+      | none => rtErr "Invalid Variable" tok.span σ) (fun σ P => ?_) r
+    simp only [lookupVar_withProcs]
+    cases lookupVar σ name <;> rfl
+  | assign name nt value arrow =>
+    simp only [Expr.CallsWithin] at hcw
+    simp only [expr]
+    refine RelR.bind (ih.expr value s t hcw r) ?_
+    rintro ⟨a, s1⟩ ⟨a', t1⟩ ⟨hv, r1⟩
+    dsimp only at hv r1 ⊢; subst hv
+    exact relV_of_obl (fun σ P => assignVar_obl σ P name a) r1
+  | set l lt idx lb rb value arrow =>
+    simp only [Expr.CallsWithin] at hcw
+    simp only [expr]
+    refine RelR.bind (ih.expr l s t hcw.1 r) ?_
+    rintro ⟨a, s1⟩ ⟨a', t1⟩ ⟨hv, r1⟩
+    dsimp only at hv r1 ⊢; subst hv
+    refine RelR.bind (ih.expr idx s1 t1 hcw.2.1 r1) ?_
+    rintro ⟨b, s2⟩ ⟨b', t2⟩ ⟨hv, r2⟩
+    dsimp only at hv r2 ⊢; subst hv
+    refine RelR.bind (ih.expr value s2 t2 hcw.2.2 r2) ?_
+    rintro ⟨c, s3⟩ ⟨c', t3⟩ ⟨hv, r3⟩
+    dsimp only at hv r3 ⊢; subst hv
+    exact relV_of_obl (fun σ P => indexWrite_obl σ P a b c lt lb rb) r3
+  | logical l op rr tok =>
+    simp only [Expr.CallsWithin] at hcw
+    simp only [expr]
+    refine RelR.bind (ih.expr l s t hcw.1 r) ?_
+    rintro ⟨a, s1⟩ ⟨a', t1⟩ ⟨hv, r1⟩
+    dsimp only at hv r1 ⊢; subst hv
+    cases op <;> dsimp only <;> split <;> first | exact ⟨rfl, r1⟩ | exact ih.expr rr s1 t1 hcw.2 r1
+  | call name args spans tok lp rp =>
+    simp only [Expr.CallsWithin] at hcw
+    simp only [expr]
+    refine RelR.bind (ih.exprs args s t hcw.2 r) ?_
+    rintro ⟨vs, s1⟩ ⟨vs', t1⟩ ⟨hv, r1⟩
+    dsimp only at hv r1 ⊢; subst hv
+    obtain ⟨Q, rfl, ha, hc⟩ := r1
+    simp only [withProcs_procs]
+    rw [← ha name hcw.1]
+    cases hf : s1.procs.find? name with
+    | none => exact ⟨rfl, Q, rfl⟩
+    | some p =>
+      cases p with
+      | native n =>
+        dsimp only
+        split
+        · exact ⟨rfl, Q, rfl⟩
+        · exact relV_of_obl (fun σ P => callNative_obl σ P cfg.chars n vs spans) ⟨Q, rfl, ha, hc⟩
+      | user params body =>
+        dsimp only
+        split
+        · exact ⟨rfl, Q, rfl⟩
+        · have hb : body.CallsWithin names := hc name hcw.1 _ hf
+          refine RelR.bind (ih.stmt body _ _ hb ⟨Q, rfl, ha, hc⟩) ?_
+          intro s2 t2 r2
+          obtain ⟨Q2, rfl, ha2, hc2⟩ := r2
+          simp only [withProcs_scopes]
+          cases s2.scopes with
+          | nil => exact ⟨rfl, rfl⟩
+          | cons fr rest => exact ⟨rfl, Q2, rfl, ha2, hc2⟩
+
+
+theorem program_step (ss : List Stmt) (s t : St) (hcw : Stmt.CallsWithinL names ss) (r : RelSt names s t) :
+    RelR (RelSt names) (program cfg (f+1) ss s) (program cfg (f+1) ss t) := by
+  cases ss with
+  | nil => simp only [program]; exact r
+  | cons st ss =>
+    simp only [Stmt.CallsWithinL] at hcw
+    simp only [program]
+    refine RelR.bind (ih.stmt st s t hcw.1 r) ?_
+    intro s1 t1 r1
+    exact ih.program ss s1 t1 hcw.2 r1
+
+theorem block_step (ss : List Stmt) (s t : St) (hcw : Stmt.CallsWithinL names ss) (r : RelSt names s t) :
+    RelR (RelSt names) (block cfg (f+1) ss s) (block cfg (f+1) ss t) := by
+  cases ss with
+  | nil => simp only [block]; exact r
+  | cons st ss =>
+    simp only [Stmt.CallsWithinL] at hcw
+    simp only [block]
+    have hp : pending t = pending s := by obtain ⟨Q, rfl, _, _⟩ := r; rfl
+    rw [hp]
+    cases pending s with
+    | true => exact r
+    | false =>
+      simp only [Bool.false_eq_true, ↓reduceIte]
+      refine RelR.bind (ih.stmt st s t hcw.1 r) ?_
+      intro s1 t1 r1
+      exact ih.block ss s1 t1 hcw.2 r1
+
+theorem repeatLoop_step (k : Nat) (body : Stmt) (s t : St) (hcw : Stmt.CallsWithin names body)
+    (r : RelSt names s t) :
+    RelR (RelSt names) (repeatLoop cfg (f+1) k body s) (repeatLoop cfg (f+1) k body t) := by
+  cases k with
+  | zero => simp only [repeatLoop]; exact r
+  | succ k =>
+    simp only [repeatLoop]
+    refine RelR.bind (ih.stmt body s t hcw r) ?_
+    intro s1 t1 r1
+    refine RelR.bind (relV_of_obl (fun σ P => afterBody_obl σ P false) r1) ?_
+    rintro ⟨nxt, s2⟩ ⟨nxt', t2⟩ ⟨hv, r2⟩
+    dsimp only at hv r2 ⊢; subst hv
+    cases nxt with
+    | stop => exact r2
+    | again => exact ih.repeatLoop k body s2 t2 hcw r2
+
+theorem untilLoop_step (c : Expr) (body : Stmt) (s t : St) (hc : Expr.CallsWithin names c)
+    (hcw : Stmt.CallsWithin names body) (r : RelSt names s t) :
+    RelR (RelSt names) (untilLoop cfg (f+1) c body s) (untilLoop cfg (f+1) c body t) := by
+  simp only [untilLoop]
+  refine RelR.bind (ih.expr c s t hc r) ?_
+  rintro ⟨v, s0⟩ ⟨v', t0⟩ ⟨hv, r0⟩
+  dsimp only at hv r0 ⊢; subst hv
+  split
+  · exact r0
+  · refine RelR.bind (ih.stmt body s0 t0 hcw r0) ?_
+    intro s1 t1 r1
+    refine RelR.bind (relV_of_obl (fun σ P => afterBody_obl σ P true) r1) ?_
+    rintro ⟨nxt, s2⟩ ⟨nxt', t2⟩ ⟨hv, r2⟩
+    dsimp only at hv r2 ⊢; subst hv
+    cases nxt with
+    | stop => exact r2
+    | again => exact ih.untilLoop c body s2 t2 hc hcw r2
+
+theorem forLoop_step (item : Str) (a i len : Nat) (body : Stmt) (s t : St) (hcw : Stmt.CallsWithin names body)
+    (r : RelSt names s t) :
+    RelR (RelSt names) (forLoop cfg (f+1) item a i len body s) (forLoop cfg (f+1) item a i len body t) := by
+  simp only [forLoop]
+  split
+  · exact r
+  · have hg : getList t a = getList s a := by obtain ⟨Q, rfl, _, _⟩ := r; rfl
+    rw [hg]
+    cases (getList s a).bind (fun vs => vs[i]?) with
+    | none => exact r
+    | some v =>
+      dsimp only
+      refine RelR.bind (relS_of_obl (F := fun σ => define σ item v) (fun σ P => define_obl σ P item v) r) ?_
+      intro s1 t1 r1
+      refine RelR.bind (ih.stmt body s1 t1 hcw r1) ?_
+      intro s2 t2 r2
+      refine RelR.bind (relV_of_obl (fun σ P => forAfter_obl σ P) r2) ?_
+      rintro ⟨nxt, s3⟩ ⟨nxt', t3⟩ ⟨hv, r3⟩
+      dsimp only at hv r3 ⊢; subst hv
+      cases nxt with
+      | stop => exact r3
+      | skip => exact ih.forLoop item a (i + 1) len body s3 t3 hcw r3
+      | writeBack =>
+        dsimp only
+        refine RelR.bind (relV_of_obl (F := fun σ => removeVar σ item) (fun σ P => removeVar_obl σ P item) r3) ?_
+        rintro ⟨cur, s4⟩ ⟨cur', t4⟩ ⟨hv, r4⟩
+        dsimp only at hv r4 ⊢; subst hv
+        refine ih.forLoop item a (i + 1) len body _ _ hcw ?_
+        obtain ⟨Q, rfl, ha, hc⟩ := r4
+        refine ⟨Q, writeBack_withProcs s4 Q a i cur, ?_, ?_⟩
+        · have : (writeBack s4 a i cur).procs = s4.procs := by
+            unfold writeBack; repeat' (first | rfl | split)
+          rw [this]; exact ha
+        · have : (writeBack s4 a i cur).procs = s4.procs := by
+            unfold writeBack; repeat' (first | rfl | split)
+          rw [this]; exact hc
+
+theorem stmt_step (st : Stmt) (s t : St) (hcw : Stmt.CallsWithin names st) (r : RelSt names s t) :
+    RelR (RelSt names) (stmt cfg (f+1) st s) (stmt cfg (f+1) st t) := by
+  simp only [stmt]
+  obtain ⟨Q, rfl, ha, hc⟩ := r
+  rw [tick_withProcs]
+  cases htick : tick s with
+  | none => trivial
+  | some s0 =>
+    have hp0 : s0.procs = s.procs := by
+      unfold tick at htick; split at htick
+      · cases htick
+      · injection htick with htick; subst htick; rfl
+    have r0 : RelSt names s0 (s0.withProcs Q) := ⟨Q, rfl, hp0 ▸ ha, hp0 ▸ hc⟩
+    simp only [Option.map_some]
+    generalize s0.withProcs Q = t0 at r0
+    clear htick hp0 ha hc
+    cases st with
+    | expr e =>
+      simp only [Stmt.CallsWithin] at hcw
+      dsimp only
+      refine RelR.bind (ih.expr e s0 t0 hcw r0) ?_
+      rintro ⟨v, s1⟩ ⟨v', t1⟩ ⟨hv, r1⟩
+      exact r1
+    | ifs c th el it et =>
+      simp only [Stmt.CallsWithin] at hcw
+      dsimp only
+      refine RelR.bind (ih.expr c s0 t0 hcw.1 r0) ?_
+      rintro ⟨v, s1⟩ ⟨v', t1⟩ ⟨hv, r1⟩
+      dsimp only at hv r1 ⊢; subst hv
+      split
+      · exact ih.stmt th s1 t1 hcw.2.1 r1
+      · cases el with
+        | none => exact r1
+        | some e => exact ih.stmt e s1 t1 hcw.2.2 r1
+    | repeatTimes count body rt tt ct =>
+      simp only [Stmt.CallsWithin] at hcw
+      dsimp only
+      refine RelR.bind (ih.expr count s0 t0 hcw.1 r0) ?_
+      rintro ⟨v, s1⟩ ⟨v', t1⟩ ⟨hv, r1⟩
+      dsimp only at hv r1 ⊢; subst hv
+      obtain ⟨Q1, rfl, ha1, hc1⟩ := r1
+      cases v with
+      | num n =>
+        dsimp only
+        refine RelR.bind (ih.repeatLoop (countOf n) body _ _ hcw.2 ⟨Q1, rfl, ha1, hc1⟩) ?_
+        intro s2 t2 r2
+        exact relS_of_obl (fun σ P => popLoop_obl σ P) r2
+      | _ => exact ⟨rfl, Q1, rfl⟩
+    | repeatUntil cond body rt ut =>
+      simp only [Stmt.CallsWithin] at hcw
+      dsimp only
+      obtain ⟨Q1, rfl, ha1, hc1⟩ := r0
+      refine RelR.bind (ih.untilLoop cond body _ _ hcw.1 hcw.2 ⟨Q1, rfl, ha1, hc1⟩) ?_
+      intro s2 t2 r2
+      exact relS_of_obl (fun σ P => popLoop_obl σ P) r2
+    | forEach item itok list body ft et int lt =>
+      simp only [Stmt.CallsWithin] at hcw
+      dsimp only
+      refine RelR.bind (ih.expr list s0 t0 hcw.1 r0) ?_
+      rintro ⟨v, s1⟩ ⟨v', t1⟩ ⟨hv, r1⟩
+      dsimp only at hv r1 ⊢; subst hv
+      refine RelR.bind (R := RV names) ?_ ?_
+      · refine relV_of_obl (F := fun σ => (match v with
+          | .list a => .ok (a, σ)
+          | .str s => .ok ((allocCell σ (.list ((StrOps.charsToStrs s).map Value.str))).1,
+              (allocCell σ (.list ((StrOps.charsToStrs s).map Value.str))).2)
+          | _ => rtErr "Invalid Iterator" lt.span σ : Res (Nat × St))) (fun σ P => ?_) r1
+        cases v <;> rfl
+      rintro ⟨a, s2⟩ ⟨a', t2⟩ ⟨hv, r2⟩
+      dsimp only at hv r2 ⊢; subst hv
+      refine RelR.bind (relV_of_obl (F := fun σ => removeVar σ item) (fun σ P => removeVar_obl σ P item) r2) ?_
+      rintro ⟨cached, s3⟩ ⟨cached', t3⟩ ⟨hv, r3⟩
+      dsimp only at hv r3 ⊢; subst hv
+      obtain ⟨Q3, rfl, ha3, hc3⟩ := r3
+      simp only [getList_withProcs, withProcs_out, withProcs_loops]
+      refine RelR.bind (R := Eq) ?_ ?_
+      · cases getList s3 a with
+        | none => exact ⟨rfl, rfl⟩
+        | some vs => exact rfl
+      rintro len _ rfl
+      refine RelR.bind (ih.forLoop item a 0 len body _ _ hcw.2 ⟨Q3, rfl, ha3, hc3⟩) ?_
+      intro s4 t4 r4
+      refine RelR.bind (relS_of_obl (fun σ P => popLoop_obl σ P) r4) ?_
+      intro s5 t5 r5
+      cases cached with
+      | none => exact r5
+      | some cv => exact relS_of_obl (F := fun σ => define σ item cv) (fun σ P => define_obl σ P item cv) r5
+    | procDecl name params body exported pt nt =>
+      simp only [Stmt.CallsWithin] at hcw
+      dsimp only
+      obtain ⟨Q1, rfl, ha1, hc1⟩ := r0
+      exact ⟨Q1.insert name (Proc.user (params.map (·.1)) body), rfl, agreeOn_insert ha1 _ _,
+        closed_insert hc1 _ _ hcw⟩
+    | ret tok value =>
+      cases value with
+      | none =>
+        dsimp only
+        obtain ⟨Q1, rfl, ha1, hc1⟩ := r0
+        exact ⟨Q1, rfl, ha1, hc1⟩
+      | some e =>
+        simp only [Stmt.CallsWithin] at hcw
+        dsimp only
+        refine RelR.bind (ih.expr e s0 t0 hcw r0) ?_
+        rintro ⟨v, s1⟩ ⟨v', t1⟩ ⟨hv, r1⟩
+        dsimp only at hv r1 ⊢; subst hv
+        obtain ⟨Q1, rfl, ha1, hc1⟩ := r1
+        exact ⟨Q1, rfl, ha1, hc1⟩
+    | cont tok =>
+      dsimp only
+      obtain ⟨Q1, rfl, ha1, hc1⟩ := r0
+      simp only [withProcs_loops, withProcs_out]
+      cases s0.loops with
+      | nil => exact ⟨rfl, rfl⟩
+      | cons lc rest => exact ⟨Q1, rfl, ha1, hc1⟩
+    | brk tok =>
+      dsimp only
+      obtain ⟨Q1, rfl, ha1, hc1⟩ := r0
+      simp only [withProcs_loops, withProcs_out]
+      cases s0.loops with
+      | nil => exact ⟨rfl, rfl⟩
+      | cons lc rest => exact ⟨Q1, rfl, ha1, hc1⟩
+    | block lb ss rb =>
+      simp only [Stmt.CallsWithin] at hcw
+      dsimp only
+      refine RelR.bind (relS_of_obl (fun σ P => createNested_obl σ P) r0) ?_
+      intro s1 t1 r1
+      refine RelR.bind (ih.block ss s1 t1 hcw r1) ?_
+      intro s2 t2 r2
+      exact relS_of_obl (fun σ P => flattenNested_obl σ P) r2
+    | import_ it mt ft only mn => simp only [Stmt.CallsWithin] at hcw
+
+end step
+
+
+theorem obl_zero (cfg : Cfg) (names : List Str) : Obl cfg names 0 where
+  expr := by intro e s t _ _; simp only [expr]; trivial
+  exprs := by
+    intro es s t _ r
+    cases es with
+    | nil => simp only [exprs]; exact ⟨rfl, r⟩
+    | cons e es => simp only [exprs]; trivial
+  stmt := by intro st s t _ _; simp only [stmt]; trivial
+  block := by
+    intro ss s t _ r
+    cases ss with
+    | nil => simp only [block]; exact r
+    | cons st ss =>
+      simp only [block]
+      have hp : pending t = pending s := by obtain ⟨Q, rfl, _, _⟩ := r; rfl
+      rw [hp]
+      cases pending s with
+      | true => exact r
+      | false => trivial
+  repeatLoop := by
+    intro k body s t _ r
+    cases k with
+    | zero => simp only [repeatLoop]; exact r
+    | succ k => simp only [repeatLoop]; trivial
+  untilLoop := by intro c body s t _ _ _; simp only [untilLoop]; trivial
+  forLoop := by intro item a i len body s t _ _; simp only [forLoop]; trivial
+  program := by
+    intro ss s t _ r
+    cases ss with
+    | nil => simp only [program]; exact r
+    | cons st ss => simp only [program]; trivial
+
+/-- evaluation depends on the procedure table only through the lookups of the names in `names` -/
+theorem obl_all (cfg : Cfg) (names : List Str) : ∀ f, Obl cfg names f
+  | 0 => obl_zero cfg names
+  | f+1 =>
+    have ih := obl_all cfg names f
+    { expr := expr_step ih, exprs := exprs_step ih, stmt := stmt_step ih, block := block_step ih,
+      repeatLoop := repeatLoop_step ih, untilLoop := untilLoop_step ih, forLoop := forLoop_step ih,
+      program := program_step ih }
+
 end Aplang
